@@ -26,7 +26,7 @@ def chart_and_history(seed, k, engine=None, bias=None, adversarial_p=0.3, dm=Non
             elif x < 0.4:
                 ctl.append({"op": "yield"})
             else:
-                ctl.append({"op": "recv", "i": 0, "name": rp.choice(gen.EXT_EVENTS + ["a", "b", "zz"]) if not par else rp.choice(["a", "b", "a", "b", "a.x"])})
+                ctl.append({"op": "recv", "i": 0, "name": rp.choice(gen.EXT_EVENTS + ["a", "b", "zz"]) if not par else rp.choice(["a", "b", "a", "b", "a.x", "c"])})
         ctl.append({"op": "sleep", "ms": rp.choice([1, 20, 70])})
         ctl.append({"op": "cancel", "i": 0})
         actors = {"main": [create, {"op": "validate", "i": 0}, {"op": "spawn", "actor": "stepper"}, {"op": "spawn", "actor": "ctl"}],
